@@ -39,6 +39,9 @@ pub fn concurrent_immix_mutator_release<VM: VMBinding>(
     .unwrap();
     immix_allocator.reset();
 
+    // Reset the allocator of the common non-moving space as every other plan does.
+    crate::plan::mutator_context::common_release_func(mutator, _tls);
+
     // Deactivate SATB
     if current_pause == Pause::Full || current_pause == Pause::FinalMark {
         debug!("Deactivate SATB barrier active for {:?}", mutator as *mut _);
@@ -66,6 +69,8 @@ pub fn concurent_immix_mutator_prepare<VM: VMBinding>(
     .downcast_mut::<ImmixAllocator<VM>>()
     .unwrap();
     immix_allocator.reset();
+
+    crate::plan::mutator_context::common_prepare_func(mutator, _tls);
 
     // Activate SATB
     if current_pause == Pause::InitialMark {
